@@ -509,8 +509,27 @@ func regionFlat(c *hc.Ctx) {
 		fl := make([]int, len(pts))
 		for i, pt := range pts {
 			fl[i] = flagsFor(pt, pls, st, hw, lo, band)
+			// distribution of the probe points over the classes of the specification (float cross-check of
+			// the flags the Lean specification computes exactly)
+			if fl[i]&1 == 0 {
+				c.Count("flat:point:demanded-filled")
+			} else {
+				c.Count("flat:point:nothing-demanded")
+			}
+			if fl[i]&2 != 0 {
+				c.Count("flat:point:area-allowed(square-cap|miter-disc)")
+			}
+			if fl[i]&4 != 0 {
+				c.Count("flat:point:clip-zone")
+			}
 		}
-		line := fmt.Sprintf("STROKE %s %s %s %s %s R %s PTS %s %s INFO w=%v cap=%s join=%s limit=%v tol=%v P=%s", hc.H(lo), hc.H(hi), hc.H(lo-canvas.Tolerance), hc.H(hi+canvas.Tolerance), inputTokens(pls), hc.PolyTokens(res), hc.PtsTokens(pts), flagTokens(fl),
+		head := "STROKE"
+		if os.Getenv("C04_GOFLAGS") == "" {
+			// the allowances are decided by the exact Lean specification (Canvas.C04.Spec); the float
+			// flags computed here travel along only as a cross-check for the histogram
+			head = fmt.Sprintf("STROKEX %d %d %s", st.cap, st.join, hc.Hs(st.limit, hw, band))
+		}
+		line := fmt.Sprintf(head+" %s %s %s %s %s R %s PTS %s %s INFO w=%v cap=%s join=%s limit=%v tol=%v P=%s", hc.H(lo), hc.H(hi), hc.H(lo-canvas.Tolerance), hc.H(hi+canvas.Tolerance), inputTokens(pls), hc.PolyTokens(res), hc.PtsTokens(pts), flagTokens(fl),
 			w, capNames[st.cap], joinNames[st.join], st.limit, tol, strings.ReplaceAll(P.String(), " ", "_"))
 		oc := "open"
 		for _, pl := range pls {
@@ -1002,6 +1021,16 @@ func regionCurved(c *hc.Ctx) {
 				cls := "hole"
 				if d >= lo-canvas.Tolerance {
 					cls += "-within-global-Tolerance"
+				} else if strings.Contains(class, "cubic") || strings.Contains(class, "quad") {
+					// where: next to a join vertex, or along the (offset) curve
+					cls += "@curve"
+					for _, pl := range pls {
+						for _, v := range pl.pts {
+							if joinsAt[v] && pt.Dist(v) <= d+1e-9 {
+								cls = "hole@join"
+							}
+						}
+					}
 				}
 				c.Fail(fmt.Sprintf("stroke-curved:%s:%s:%s%s", st.name(), class, cls, suffix), verdict, map[string]any{"P": P.String(), "w": w, "style": st.name(), "limit": st.limit, "tol": tol, "point": []float64{pt.X, pt.Y}, "R": R.String()})
 				break
